@@ -325,6 +325,10 @@ func init() {
 			sb.WriteString("- second\n  - k\n")
 			docs = append(docs, sb.String())
 		}
+		// names with printf verbs (an error that is built around a name must still be the reader's), and a line longer than
+		// the usual read buffers (reader failures inside it: every 512th offset and around the 4096-byte boundaries)
+		docs = append(docs, "- 100%\n  - 50% done\n- %s\n  - %w%v\n")
+		longDoc := "- a\n  - " + strings.Repeat("y", 9000) + "\n- c\n"
 		// every forest with n <= maxN nodes over {a,b}, canonical spelling
 		for n := 1; n <= maxN; n++ {
 			enum.DepthSeqs(n, func(d []int) {
@@ -335,6 +339,38 @@ func init() {
 		}
 		modes := []string{"text", "text-noiter", "text-fmt", "json", "yaml", "toml", "dry", "dry-colour"}
 		c.Bound("documents", fmt.Sprint(len(docs)))
+		if c.Take() {
+			for _, mode := range []string{"text", "json", "dry", "text-noiter"} {
+				for _, route := range []string{"md", "md-walk"} {
+					if route == "md-walk" && mode != "text" {
+						continue
+					}
+					base := c14Replay{Kind: "c14", Doc: longDoc, Mode: mode, Route: route, Reader: -1}
+					w0 := &failWriter{}
+					if err0, pan0 := c14CallEOF(base, w0); err0 != nil || pan0 != "" {
+						c.Violation("C14|fault-free-run-failed", fmt.Sprintf("long-line document mode=%s route=%s: %v %s", mode, route, err0, pan0), len(longDoc), base)
+						continue
+					}
+					fullLong := w0.buf.String()
+					for i := 1; i < len(longDoc); i++ {
+						near := false
+						for b := 4096; b < len(longDoc); b += 4096 {
+							if i >= b-10 && i <= b+10 {
+								near = true
+							}
+						}
+						if !(near || i%512 == 0 || i < 12 || i > len(longDoc)-8) {
+							continue
+						}
+						r := base
+						r.Reader = i
+						c.Nontrivial()
+						c.Inc("long_line_reader_faults")
+						c14Case(c, r, fullLong)
+					}
+				}
+			}
+		}
 		for _, doc := range docs {
 			sp := model.ParseSpec(doc)
 			single := len(sp.Forest) == 1
